@@ -165,7 +165,10 @@ class Repo:
 
                     from .inline import literal_forms
 
-                    n_changed = default_then_override(tree)
+                    from .inline import explicit_super
+
+                    n_changed = explicit_super(tree)
+                    n_changed += default_then_override(tree)
                     n_changed += unroll_literal_loops(tree)
                     n_changed += literal_forms(tree)
                     n_changed += sink_selected_callees(tree)
